@@ -52,6 +52,7 @@ pub struct Acc {
     pub states_overflow: u64,
     pub distinct_overflow: u64,
     pub hist: BTreeMap<String, u64>,
+    pub hist2: std::collections::HashMap<(&'static str, &'static str), u64>,
     pub viols: Vec<Violation>,
     pub viol_count: u64,
     pub known: BTreeMap<String, (u64, Value)>,
@@ -82,6 +83,11 @@ impl Acc {
         } else {
             self.hist.insert(label.to_string(), 1);
         }
+    }
+    /// allocation-free histogram bump for hot loops
+    #[inline]
+    pub fn outcome2(&mut self, a: &'static str, b: &'static str) {
+        *self.hist2.entry((a, b)).or_insert(0) += 1;
     }
     pub fn violation(&mut self, weight: u64, kind: &str, detail: String, case: impl FnOnce() -> Value) {
         self.viol_count += 1;
@@ -124,6 +130,9 @@ impl Acc {
         }
         for (k, v) in o.hist {
             *self.hist.entry(k).or_insert(0) += v;
+        }
+        for ((a, b), v) in o.hist2 {
+            *self.hist.entry(format!("{}.{}", a, b)).or_insert(0) += v;
         }
         self.viol_count += o.viol_count;
         for v in o.viols {
@@ -218,6 +227,7 @@ impl Run {
     where
         F: Fn(&mut Acc, u64, u64) + Sync,
     {
+        let t0 = Instant::now();
         let visited = AtomicU64::new(0);
         let threads = self.threads.min(n.max(1) as usize).max(1);
         let chunk = (n / (threads as u64 * 64)).clamp(1, 1 << 20);
@@ -249,6 +259,9 @@ impl Run {
             self.acc.merge(a);
         }
         let v = visited.load(Ordering::Relaxed);
+        if std::env::var("MCX_TIMING").is_ok() {
+            eprintln!("[timing] {:>8.2}s  n={:<12} {}", t0.elapsed().as_secs_f64(), n, name);
+        }
         self.subspaces.push(SubSpace { name: name.to_string(), cardinality: n, visited: v });
     }
 
